@@ -112,8 +112,11 @@ func emitIcc(c *corrCtx, class string, data []byte) string {
 
 // c16Oracle: the property's own statement, evaluated on the real code against an
 // independent decode of the header bytes at the offsets ICC.1 assigns.
-func c16Oracle(c *corrCtx, class string, hd []byte) {
-	data := append(append([]byte{}, hd...), 0, 0, 0, 0)
+func c16Oracle(c *corrCtx, class string, hd []byte) { c16OracleTail(c, class, hd, []byte{0, 0, 0, 0}) }
+
+// c16OracleTail: the header followed by a tag table and tag data (tail)
+func c16OracleTail(c *corrCtx, class string, hd []byte, tail []byte) {
+	data := append(append([]byte{}, hd...), tail...)
 	p, err, pan := safeReadProfile(data)
 	be := binary.BigEndian
 	hasSig := string(hd[36:40]) == "acsp"
@@ -323,6 +326,26 @@ func corrC16(c *corrCtx) {
 			h[36+r.intn(4)] ^= 1 << uint(r.intn(8))
 		}
 		emit("random", h)
+	}
+	// complete profiles (a tag table and tag data after the header): what follows the header must not
+	// change what the header fields say — in particular the size field, whatever it declares (the true
+	// size, less than the tag data's extent, 0, the header alone, more than there is)
+	np := 12
+	if c.thorough() {
+		np = 300
+	}
+	for i := 0; i < np; i++ {
+		d, _ := randIccDesc(r, 1+r.intn(5))
+		full := d.build()
+		if len(full) < 132 {
+			continue
+		}
+		for _, sz := range []uint32{uint32(len(full)), 0, 128, 132, uint32(len(full)) - 1, uint32(len(full)) / 2, uint32(len(full)) + 1, 0xffffffff, uint32(r.next())} {
+			g := append([]byte{}, full...)
+			binary.BigEndian.PutUint32(g[0:], sz)
+			emitIcc(c, "with-tags", g)
+			c16OracleTail(c, "with-tags", g[:128], g[128:])
+		}
 	}
 	// truncated headers
 	for _, cut := range []int{0, 1, 35, 36, 39, 40, 83, 84, 85, 99, 100, 127, 128, 129, 131} {
